@@ -209,6 +209,17 @@ def check_case(case, rec, lib, sp=None):
             elif o.family != "SignatureError":
                 rec.violation(boundary.mechanism("error-family", "verify_signable", "SignatureError", o),
                               "threshold above signer count", case)
+    # a key listed several times in the authorized list is still one signer
+    dup_auth = auth + [auth[0]] * rng.randint(1, 2)
+    rng.shuffle(dup_auth)
+    o = boundary.call(lib, A.verify_signable, env, dup_auth, kcount + 1)
+    rec.count("threshold_checks")
+    if o.accepted:
+        rec.violation("roundtrip/verify_signable/accepts-above-signer-count-with-duplicated-key-list",
+                      "%d distinct signers, a key listed twice in the authorized list, threshold %d accepted" % (kcount, kcount + 1), case)
+    o = boundary.call(lib, A.verify_signable, env, dup_auth, kcount)
+    if not o.accepted:
+        rec.violation(boundary.mechanism("roundtrip", "verify_signable", "accept[t=k, duplicated key list]", o), "duplicates in the key list made a sufficient envelope fail", case)
     # single-key authorized subsets
     one = rng.choice(ks)
     o = boundary.call(lib, A.verify_signable, env, [one.hex], 1)
